@@ -42,6 +42,9 @@ func AsTargets() []func() interface{} {
 		func() interface{} { return new(*gen.UWrapCauseOnly) },
 		func() interface{} { return new(*gen.UWrapAsSelf) },
 		func() interface{} { return new(*gen.ULeafAs) },
+		func() interface{} { return new(gen.Coded) },
+		func() interface{} { return new(*gen.ZeroA) },
+		func() interface{} { return new(interface{ ErrorHint() string }) },
 	}
 }
 
